@@ -3,7 +3,8 @@
      21 a b | 22 a b      divRoundUp in uint32_t / uint64_t (wrap-around modelled)
      24 x lo hi | 27 ...  clamp<int>/<int64_t>
      25 seed seq n        first n outputs of pcg32 seeded (seed, sequence), comma separated
-     26 c0 c1 c2 c3       cvt_uint32(vec4f) packing of four channel values 0..255 *)
+     26 c0 c1 c2 c3       cvt_uint32(vec4f) packing of four channel values 0..255
+     29 seed seq n        as 25, computed by the generator regenerated from the sources (translation validation) *)
 let zs = z_of_string
 let () =
   try while true do
@@ -16,6 +17,8 @@ let () =
       | ["24"; x; lo; hi] | ["27"; x; lo; hi] -> string_of_z (clampZ (zs x) (zs lo) (zs hi))
       | ["25"; seed; seq; n] ->
         String.concat "," (List.map string_of_z (pcg_stream (zs seed) (zs seq) (nat_of_int (int_of_string n))))
+      | ["29"; seed; seq; n] ->      (* the engine assembled from REGENERATED pieces (GenRandom.gen_stream), machine reading *)
+        String.concat "," (List.map string_of_z (gen_stream (zs seed) (zs seq) (nat_of_int (int_of_string n))))
       | ["26"; a; b; c; d] -> string_of_z (pack (zs a) (zs b) (zs c) (zs d))
       | _ -> "?" in
     print_endline out
